@@ -341,6 +341,11 @@ def run(tier):
         for chan in chans:
             for ndef in ([False, True] if codes.deformation_variants(cn)[1:] else [False]):
                 cal.append((dn, cn, size, dkw, chan, ndef, common.seed() + k))
+    # flip probability above 1/2 (negative matching weights): the decoder's answer
+    # to the trivial syndrome is a logical operator on these odd thin lattices
+    for cn, size in (('Planar2DCode', (3, 1)), ('Planar2DCode', (1, 3))):
+        for chan in ((1, 7, 0, 0), (2, 0, 0, 6), (1, 3, 2, 2)):
+            cal.append(('MatchingDecoder', cn, size, {}, chan, False, common.seed() + 99))
     crecs = common.pmap(calibration, cal, procs=15)
     recs += common.split_raised('C11', v, crecs)
     for j, r in enumerate(recs):
